@@ -19,6 +19,7 @@ type Memo struct {
 	Wrapped *ssa.Call              // the call of the wrapped parser
 	Result  *ssa.Alloc             // the *parsley.Result saved
 	Stored  map[string][]ssa.Value // field name -> stored values
+	Stores  map[string][]*ssa.Store
 }
 
 func isResultCacheMethod(f *ssa.Function, name string) bool {
@@ -45,7 +46,7 @@ func (c *Ctx) memos() []*Memo {
 			switch {
 			case isResultCacheMethod(sc, "Get"):
 				if m == nil {
-					m = &Memo{Fn: fn, Stored: map[string][]ssa.Value{}}
+					m = &Memo{Fn: fn, Stored: map[string][]ssa.Value{}, Stores: map[string][]*ssa.Store{}}
 				}
 				if m.Get != nil {
 					m.Get = nil // ambiguous
@@ -54,7 +55,7 @@ func (c *Ctx) memos() []*Memo {
 				m.Get = cl
 			case isResultCacheMethod(sc, "Save"):
 				if m == nil {
-					m = &Memo{Fn: fn, Stored: map[string][]ssa.Value{}}
+					m = &Memo{Fn: fn, Stored: map[string][]ssa.Value{}, Stores: map[string][]*ssa.Store{}}
 				}
 				m.Save = cl
 			}
@@ -86,6 +87,7 @@ func (c *Ctx) memos() []*Memo {
 				for _, rr := range *fa.Referrers() {
 					if st, ok := rr.(*ssa.Store); ok && st.Addr == fa {
 						m.Stored[name] = append(m.Stored[name], st.Val)
+						m.Stores[name] = append(m.Stores[name], st)
 					}
 				}
 			}
@@ -165,6 +167,8 @@ func (c *Ctx) ruleCacheIdentity(rule string) {
 			switch {
 			case len(vs) != 1:
 				c.R.Violation(rule, fn+" stores Result."+f, fn, c.P.InstrPos(m.Save), fmt.Sprintf("Result.%s is stored %d times before Save; expected exactly the wrapped call's result %d", f, len(vs), i))
+			case !(m.Stores[f][0].Block() == m.Save.Block() || m.Stores[f][0].Block().Dominates(m.Save.Block())):
+				c.R.Violation(rule, fn+" stores Result."+f+" conditionally", fn, c.P.InstrPos(m.Stores[f][0]), fmt.Sprintf("Result.%s is filled in only on some paths to Save: on the others the cache entry lacks the wrapped parser's result %d, and a hit replays something else than the miss returned", f, i))
 			case !isExtractOf(vs[0], m.Wrapped, i):
 				c.R.Violation(rule, fn+" stores Result."+f, fn, c.P.InstrPos(m.Save), fmt.Sprintf("Result.%s saved in the cache is %s, not result %d of the wrapped parser call at %s: a later cache hit replays something the parser did not return", f, vs[0].String(), i, c.P.InstrPos(m.Wrapped)))
 			default:
